@@ -30,8 +30,14 @@ def cases(draw, tier):
         left = {'inputs': [], 'gates': [['k', 'ALWAYS_TRUE', []]], 'outputs': ['k'], 'style': 'plain'}
     if not left['outputs']:
         left['outputs'] = [left['gates'][-1][0]]
-    n, m = len(left['inputs']), len(left['outputs'])
     mode = draw(st.sampled_from(['mutant', 'mutant', 'independent', 'same', 'shape_mismatch']))
+    if mode in ('mutant', 'same') and draw(st.integers(0, 7)) == 0:
+        # very many outputs (the same few gates listed again and again): counts beyond 256
+        labs = [g[0] for g in left['gates']]
+        many = draw(st.sampled_from([256, 257, 300]))
+        k0 = draw(st.integers(0, 40))
+        left = dict(left, outputs=[labs[(k0 + q * (1 + q % 3)) % len(labs)] for q in range(many)])
+    n, m = len(left['inputs']), len(left['outputs'])
     if mode in ('mutant', 'same'):
         right = {'inputs': list(left['inputs']), 'gates': [list(g) for g in left['gates']],
                  'outputs': list(left['outputs']), 'style': left['style']}
@@ -126,7 +132,7 @@ def check_miter(case):
     pr = wellformed.problems(miter)
     if pr:
         raise Violation('wellformed', '; '.join(pr[:3]))
-    cls = {'mode:' + case['mode'], f'm={min(m, 3)}{"+" if m > 3 else ""}'}
+    cls = {'mode:' + case['mode'], f'm={min(m, 3)}{"+" if m > 3 else ""}'} | ({'outputs>256'} if m > 256 else set())
     if case.get('prelude'):
         cls.add('prelude:' + case['prelude'])
     if cr is cl:
@@ -156,5 +162,5 @@ SPEC = {
     'assumptions': ['pysat stand-in (z3) decides the miter CNF'],
     'subs': [Sub('miter', cases, check_miter, {'quick': 2500, 'thorough': 150000})],
     'required_classes': {'miter': ['m=1', 'm=2', 'shared_labels', 'output_is_input', 'dup_output',
-                                   'shape_mismatch', 'mode:mutant', 'mode:independent']},
+                                   'shape_mismatch', 'mode:mutant', 'mode:independent', 'outputs>256']},
 }
